@@ -442,4 +442,35 @@ Section Conv.
     rewrite !exec_smap. apply assign_perm; [exact ND|].
     unfold map_events. apply Permutation_flat_map. exact P.
   Qed.
+  (* ---- end to end, for the layer whose conversion returned descriptor d ---- *)
+  Lemma end_to_end : forall k ls os st0 i l d,
+    nth_error ls i = Some l -> convert k l = Some d -> In (Commit i) os ->
+    (exists b, commits_to k ls os (d_digest d) b
+               /\ alookup (sstore (exec k ls st0 os)) (d_digest d) = Some (H (payload b)))
+    /\ (is_ext k = true -> In (Record i) os -> smap st0 = [] ->
+          exists b, records_to k ls os (d_digest d) b
+                    /\ fetch (finalize (smap (exec k ls st0 os))) (d_digest d) = Some (etoc b)).
+  Proof.
+    intros k ls os st0 i l d NL CV IC.
+    destruct (convert_describes k l d CV) as (b & B & C & D & _ & _ & _ & M).
+    split.
+    - apply label_any_schedule. exists b, i, l. repeat split; try assumption. symmetry; exact D.
+    - intros X IR E0.
+      destruct (toc_map_any_schedule k ls os st0 (d_digest d) E0) as (_ & F & _).
+      apply F. exists b, i, l. repeat split; try assumption; [eexists; exact M|symmetry; exact D].
+  Qed.
+
+  (* if every TOC blob verifies the blob it was written for (contract of GzipCompressor.WriteTOCTo with a
+     per-conversion compressor), every converted layer digest is served a TOC that verifies a blob of that digest *)
+  Lemma toc_image_verifies : forall (verifies : N * N -> blob -> Prop) k ls os st0 d,
+    (forall b, verifies (etoc b) b) -> smap st0 = [] ->
+    (exists b, records_to k ls os d b) ->
+    exists b t, records_to k ls os d b /\ H b = d
+                /\ fetch (finalize (smap (exec k ls st0 os))) d = Some t /\ verifies t b.
+  Proof.
+    intros verifies k ls os st0 d V E0 R.
+    destruct (toc_map_any_schedule k ls os st0 d E0) as (_ & F & _).
+    destruct (F R) as (b & Rb & Fb). exists b, (etoc b). repeat split; try assumption; [|apply V].
+    destruct Rb as (i & l & _ & _ & _ & _ & _ & Hd). exact Hd.
+  Qed.
 End Conv.
